@@ -1571,14 +1571,17 @@ impl DtlsInner {
         handshake_msg.encode(&mut buf);
         ctx.handshake_messages.extend_from_slice(&buf);
 
-        self.send_handshake_message(
-            handshake_msg,
-            ctx.epoch,
-            &mut ctx.sequence_number,
-            None,
-            is_client,
-        )
-        .await?;
+        // Keep the record: it is part of this flight and must be retransmitted with
+        // ChangeCipherSpec + Finished if the flight is lost.
+        let client_key_exchange_record = self
+            .send_handshake_message(
+                handshake_msg,
+                ctx.epoch,
+                &mut ctx.sequence_number,
+                None,
+                is_client,
+            )
+            .await?;
         ctx.message_seq += 1;
 
         // Compute shared secret
@@ -1641,7 +1644,8 @@ impl DtlsInner {
         ctx.session_crypto = Some(create_session_crypto(keys.clone())?);
         ctx.session_keys = Some(keys);
 
-        let mut flight_records: Vec<Vec<u8>> = Vec::new();
+        let mut flight_records: Vec<Vec<u8>> = vec![client_key_exchange_record];
+        let first_unsent_record = flight_records.len();
 
         // Send ChangeCipherSpec
         let record = DtlsRecord {
@@ -1688,7 +1692,9 @@ impl DtlsInner {
             ctx.session_keys.as_ref(),
             is_client,
         )?);
-        self.conn.send_dtls_record_batch(&flight_records).await?;
+        self.conn
+            .send_dtls_record_batch(&flight_records[first_unsent_record..])
+            .await?;
         ctx.last_flight_records = Some(flight_records);
         ctx.message_seq += 1;
 
